@@ -230,9 +230,9 @@ func suiteC15(cfg Config, res *Result) {
 		pc := ProgCase{Src: src.String(), Ctx: &ct, Trim: trim, LStrip: lstrip, Label: fmt.Sprintf("trim=%v,lstrip=%v", trim, lstrip)}
 		cases = append(cases, pc)
 		if ro.Class == "ok" {
-			wants[pc.Req()] = ro.Out
+			wants[pc.Key()] = ro.Out
 		}
-		nontriv[pc.Req()] = marked
+		nontriv[pc.Key()] = marked
 		// the same document reaching the set by its other routes: the options apply alike
 		if i%5 == 1 && ro.Class == "ok" {
 			for _, route := range []string{"cache-miss+hit", "cache, options set afterwards", "file", "bytes", "set options changed after loading"} {
@@ -323,9 +323,9 @@ func suiteC15(cfg Config, res *Result) {
 			}
 		}
 	}
-	runProgCases(cfg, res, cases, "c15", func(c ProgCase, o ImplOutcome) bool { return nontriv[c.Req()] },
+	runProgCases(cfg, res, cases, "c15", func(c ProgCase, o ImplOutcome) bool { return nontriv[c.Key()] },
 		func(c ProgCase, o ImplOutcome) *Finding {
-			want, ok := wants[c.Req()]
+			want, ok := wants[c.Key()]
 			if !ok {
 				return nil
 			}
@@ -368,11 +368,11 @@ func suiteC15Spaceless(cfg Config, res *Result) {
 		if body != "" {
 			body = strings.NewReplacer("{{ g|safe }}", "<g> ", "{{ h|safe }}", " \n<h>").Replace(body)
 		}
-		bodies[pc.Req()] = body
+		bodies[pc.Key()] = body
 	}
 	runProgCases(cfg, res, cases, "c15s", func(c ProgCase, o ImplOutcome) bool { return strings.Count(c.Src, "<") >= 2 },
 		func(c ProgCase, o ImplOutcome) *Finding {
-			body := bodies[c.Req()]
+			body := bodies[c.Key()]
 			if body == "" || o.Class != "ok" {
 				return nil
 			}
